@@ -369,6 +369,7 @@ impl World {
             }
             BlockOffer::Garbage(seed, len) => Rng::new(*seed).bytes(*len as usize),
             BlockOffer::Empty => vec![],
+            BlockOffer::ReplyBlock(_) => return None,
         })
     }
 
@@ -604,10 +605,36 @@ impl World {
                     .collect();
                 let (blocks, next) = self.honest_initial(&anchor, &processed, (*max_blocks).max(1) as usize, *max_next as usize, 2_000_000, 0, false);
                 let mut b: Vec<Vec<u8>> = blocks.iter().map(|id| self.net.blocks[id].bytes.clone()).collect();
-                if let Some(p) = self.offer_block_bytes(poison) {
+                let poison_bytes = match poison {
+                    BlockOffer::ReplyBlock(i) if !b.is_empty() => Some(b[*i as usize % b.len()].clone()),
+                    other => self.offer_block_bytes(other),
+                };
+                if let Some(p) = poison_bytes {
                     let pos = (*at as usize).min(b.len());
                     b.insert(pos, p);
                 }
+                let n: Vec<BlockHeaderBlob> = next
+                    .iter()
+                    .map(|id| Self::header_blob(self.net.blocks[id].header_bytes()))
+                    .collect();
+                Ok(GetSuccessorsResponse::Complete(GetSuccessorsCompleteResponse { blocks: b, next: n }))
+            }
+            (GetSuccessorsRequest::Initial(init), ReplySpec::HonestReversed { max_blocks, max_next }) => {
+                self.paging = None;
+                self.stats.fault("F-order");
+                let mut anchor = [0u8; 32];
+                anchor.copy_from_slice(init.anchor.as_bytes());
+                let processed: BTreeSet<Hash32> = init
+                    .processed_block_hashes
+                    .iter()
+                    .map(|h| {
+                        let mut a = [0u8; 32];
+                        a.copy_from_slice(h.as_bytes());
+                        a
+                    })
+                    .collect();
+                let (blocks, next) = self.honest_initial(&anchor, &processed, (*max_blocks).max(2) as usize, *max_next as usize, 2_000_000, 0, false);
+                let b: Vec<Vec<u8>> = blocks.iter().rev().map(|id| self.net.blocks[id].bytes.clone()).collect();
                 let n: Vec<BlockHeaderBlob> = next
                     .iter()
                     .map(|id| Self::header_blob(self.net.blocks[id].header_bytes()))
